@@ -586,6 +586,11 @@ def main_check(prop, argv):
     results = [r for r in results if not r.get("abandoned")]
     harness = [r for r in results if r.get("harness_error")]
     viol = [r for r in results if r.get("violation") is not None]
+    for r in results:
+        # the process configuration is part of the state a run explores
+        if r.get("env") and r.get("pairs"):
+            tag = "|cfg:" + ",".join(sorted("%s=%s" % kv for kv in r["env"].items()))
+            r["pairs"] = [p_ + tag for p_ in r["pairs"]]
     agg = mod.aggregate(results)
     agg["pinned_plans_run"] = pinned_runs
     agg["runs_abandoned_at_cpu_cap"] = [r["run_index"] for r in abandoned]
